@@ -203,11 +203,16 @@ pub fn apply_change_to_db_try_fix_conflicts(
 }
 
 pub fn unwatch_key(key: &String, sender: &Sender<String>, db: &Database) -> Response {
-    let mut senders = get_senders(&key, &db.watchers);
+    // Read, filter and store the list under one write lock: a watch registered by another
+    // client between a separate read and the store would be dropped
+    let mut watchers = db.watchers.map.write().expect("db.watchers.map.lock");
+    let mut senders: Vec<Sender<String>> = match watchers.get(key) {
+        Some(watchers_vec) => watchers_vec.clone(),
+        _ => Vec::new(),
+    };
     log::debug!("Senders before unwatch {:?}", senders.len());
     senders.retain(|x| !x.same_receiver(&sender));
     log::debug!("Senders after unwatch {:?}", senders.len());
-    let mut watchers = db.watchers.map.write().expect("db.watchers.map.lock");
     watchers.insert(key.clone(), senders);
     Response::Ok {}
 }
